@@ -128,3 +128,74 @@ Lemma scml_skeleton_ok : scml_skeleton =
   ; "self.components_ = self._components_from_basis_weights(basis, best_w)"
   ; "if obj < best_obj: best_obj = obj; best_w = w" ]%string.
 Proof. reflexivity. Qed.
+
+(* ---- _components_from_basis_weights as translated: the low-rank factor is the model's, and the matrix handed to
+   components_from_metric in the full-rank case is sum_i w_i b_i b_i^T ---- *)
+From ML Require Import CovProof MatAction.
+
+Lemma src_lowrank_eq : forall (w : Rv) (B : Rm), length w = length B ->
+  @scml_lowrank_components ROps B w = @lowrank_components ROps w B.
+Proof.
+  unfold scml_lowrank_components, scml_active, lowrank_components, active_pairs, nn_scale_rows, nn_sqrt_v, nn_gt_vs.
+  induction w as [|a w IH]; intros [|b B] H; try discriminate; [reflexivity|].
+  cbn [map nn_mask combine filter fst snd]. change (oltb ROps (oint 0) a) with (oltb ROps (o0 ROps) a).
+  destruct (oltb ROps (o0 ROps) a); cbn [map map2 fst snd]; [f_equal|]; apply IH; cbn in H; lia.
+Qed.
+
+Lemma mvmul_scale_rows_R (x : Rv) : forall (s : Rv) (X : Rm), mvmulR (@nn_scale_rows ROps s X) x = map2 Rmult s (mvmulR X x).
+Proof. unfold nn_scale_rows. induction s as [|a s IH]; intros [|r X]; cbn; try reflexivity. f_equal; [apply vdot_vscale_l | apply IH]. Qed.
+
+Lemma active_wsq (x : Rv) : forall (w : Rv) (B : Rm), length w = length B -> Forall (fun a => 0 <= a) w ->
+  let a := @scml_active ROps w in
+  vdotR (map2 Rmult (nn_mask a w) (mvmulR (nn_mask a B) x)) (mvmulR (nn_mask a B) x) = wsq w B x.
+Proof.
+  unfold scml_active, nn_gt_vs. induction w as [|a w IH]; intros [|b B] H Hw; try discriminate; [reflexivity|].
+  inversion Hw as [|? ? Ha Hw']; subst.
+  assert (IHB := IH B ltac:(cbn in H; lia) Hw'). clear IH. cbv zeta in *.
+  cbn [map nn_mask wsq]. change (oltb ROps (oint 0) a) with (Rltb 0 a).
+  remember (map (fun x0 : T ROps => oltb ROps (oint 0) x0) w) as m eqn:Em.
+  destruct (Rltb 0 a) eqn:E.
+  - change (mvmulR (b :: nn_mask m B) x) with (vdotR b x :: mvmulR (nn_mask m B) x).
+    cbn [map2 vdot]. rewrite IHB. cbn [oadd omul ROps]. rsimp.
+    generalize (wsq w B x). generalize (vdotR b x). intros v q. change (a * v * v + q = a * v ^ 2 + q). ring.
+  - apply Rltb_false in E. assert (a = 0) by lra. subst a. rewrite IHB. lra.
+Qed.
+
+Lemma mask_wf_R {A} (P : A -> Prop) : forall (m : list bool) (l : list A), Forall P l -> Forall P (nn_mask m l).
+Proof.
+  induction m as [|b m IH]; intros [|r l] H; cbn; try constructor.
+  inversion H; subst. destruct b; [constructor; auto|]; apply IH; auto.
+Qed.
+
+Theorem src_fullrank_form d (w : Rv) (B : Rm) (x : Rv) :
+  Forall (wfvR d) B -> wfvR d x -> length w = length B -> Forall (fun a => 0 <= a) w ->
+  quadformR (@scml_fullrank_metric ROps B w) x = wsq w B x.
+Proof.
+  intros HB Hx HL Hw. unfold scml_fullrank_metric, nn_dot_tm.
+  rewrite <- (active_wsq x w B HL Hw). cbv zeta. rsimp.
+  remember (@scml_active ROps w) as a eqn:Ea.
+  assert (LA: length (nn_mask a w) = length (nn_mask a B)).
+  { clear - HL. revert B HL a. induction w as [|c w IH]; intros [|b B] H [|m0 m]; cbn in *; try discriminate; try reflexivity.
+    destruct m0; cbn; [f_equal|]; apply IH; lia. }
+  assert (HBa: Forall (wfvR d) (nn_mask a B)) by (apply mask_wf_R; exact HB).
+  remember (nn_mask a B) as Ba eqn:EB. remember (nn_mask a w) as wa eqn:EW. clear EB EW Ea HL Hw HB.
+  destruct Ba as [|r Br].
+  - destruct wa; [|discriminate]. unfold quadform. cbn. destruct x; reflexivity.
+  - assert (Hne: r :: Br <> []) by discriminate.
+    set (S := @nn_scale_rows ROps wa (r :: Br)).
+    assert (LS: length S = length (r :: Br)).
+    { unfold S, nn_scale_rows. clear - LA. revert LA. generalize (r :: Br). induction wa as [|c wa IH]; intros [|b l] H; cbn in *; try discriminate; auto. }
+    assert (HS: Forall (wfvR d) S).
+    { unfold S, nn_scale_rows. clear - HBa. revert HBa. generalize (r :: Br). induction wa as [|c wa IH]; intros [|b l] H; cbn; try constructor.
+      - inversion H; subst. unfold wfv in *. rewrite vscale_length. assumption.
+      - inversion H; subst. apply IH. assumption. }
+    assert (SN: S <> []) by (intro E; rewrite E in LS; discriminate).
+    destruct (transp_rows_wf d (r :: Br) Hne HBa) as [HT HTL].
+    unfold quadform.
+    assert (HT': Forall (wfvR (length S)) (transpR (r :: Br))).
+    { eapply Forall_impl; [|exact HT]. intros v Hv. unfold wfv in *. etransitivity; [exact Hv | symmetry; exact LS]. }
+    rewrite (mmulg_action d (transpR (r :: Br)) S x SN HS HT' Hx).
+    rewrite vdot_comm. rewrite (transp_is_fuel d (r :: Br) Hne HBa).
+    rewrite (transp_fuel_adjoint d (r :: Br) (mvmulR S x) x Hne HBa Hx) by (rewrite mvmul_length; exact LS).
+    unfold S. rewrite mvmul_scale_rows_R. reflexivity.
+Qed.
